@@ -119,47 +119,65 @@ def warn_glue_failed(kind: str, module_name: str, exc: Exception) -> None:
     )
 
 
-glue_lock = threading.Lock()
+glue_lock = threading.RLock()
+glue_being_installed = False
 
 
 def add_glue_as_needed(*, _sys_modules_len_cache: list[int] = [0]) -> None:
+    global glue_being_installed
     if len(sys.modules) == _sys_modules_len_cache[0]:
         return
     _verif_hook("glue:after_fastpath")
     # Use a lock to avoid races between multiple threads trying to extract
     # tracebacks simultaneously
     with glue_lock:
-        _verif_hook("glue:locked")
-        module_names = tuple(sys.modules)
-        for module_name in module_names:
-            builtin_fn = builtin_glue_pending.pop(module_name, None)
-            try:
-                module = sys.modules[module_name]
-                # (object.__getattribute__: so that a lazily loaded module,
-                # whose own __getattribute__ would load it at the first
-                # touch, is left alone until the program uses it)
-                module_fn = object.__getattribute__(module, "__dict__").pop(
-                    "_stackscope_install_glue_", None
-                )
-            except Exception:  # module disappeared, doesn't have a dict, etc
-                module_fn = None
-            try:
-                if module_fn is not None or builtin_fn is not None:
-                    _verif_hook("glue:before_call", module_name)
-                # Prefer the module-supplied glue over our builtin version
-                # in case both are present
-                if module_fn is not None:
-                    module_fn()
-                elif builtin_fn is not None:
-                    builtin_fn()
-            except Exception as exc:
-                kind = (
-                    "module-provided" if module_fn is not None else "stackscope-builtin"
-                )
-                warn_glue_failed(kind, module_name, exc)
-        # Only update the length cache if we visited every module (rather
-        # than bailing out with an exception)
-        _sys_modules_len_cache[0] = len(module_names)
+        if glue_being_installed:
+            # We got the lock although an installation is in progress, so
+            # it is in progress on this very thread, further up the stack:
+            # a glue function that extracts a stack itself, a warning hook
+            # or signal handler that dumps one. Carry on with what is
+            # installed so far; the installation that is under way will
+            # do the rest.
+            return
+        glue_being_installed = True
+        try:
+            _install_pending_glue(_sys_modules_len_cache)
+        finally:
+            glue_being_installed = False
+
+
+def _install_pending_glue(_sys_modules_len_cache: list[int]) -> None:
+    _verif_hook("glue:locked")
+    module_names = tuple(sys.modules)
+    for module_name in module_names:
+        builtin_fn = builtin_glue_pending.pop(module_name, None)
+        try:
+            module = sys.modules[module_name]
+            # (object.__getattribute__: so that a lazily loaded module,
+            # whose own __getattribute__ would load it at the first
+            # touch, is left alone until the program uses it)
+            module_fn = object.__getattribute__(module, "__dict__").pop(
+                "_stackscope_install_glue_", None
+            )
+        except Exception:  # module disappeared, doesn't have a dict, etc
+            module_fn = None
+        try:
+            if module_fn is not None or builtin_fn is not None:
+                _verif_hook("glue:before_call", module_name)
+            # Prefer the module-supplied glue over our builtin version
+            # in case both are present
+            if module_fn is not None:
+                module_fn()
+            elif builtin_fn is not None:
+                builtin_fn()
+        except Exception as exc:
+            kind = (
+                "module-provided" if module_fn is not None else "stackscope-builtin"
+            )
+            warn_glue_failed(kind, module_name, exc)
+    # Only update the length cache if we visited every module (rather
+    # than bailing out with an exception)
+    _sys_modules_len_cache[0] = len(module_names)
 
 
 functools_singledispatch_wrapper = get_code(functools.singledispatch, "wrapper")
